@@ -329,6 +329,10 @@ impl Package {
 
         // If RPMSIGTAG_OPENPGP exists, then the other tags (which should contain the same info) are not checked
         if let Ok(openpgp_signatures) = openpgp_sigs {
+            // an OpenPGP tag without any entry carries no signature to verify
+            if openpgp_signatures.is_empty() {
+                return Err(Error::NoSignatureFound);
+            }
             for base64_sig in openpgp_signatures.iter() {
                 let signature = decode_sig(base64_sig)?;
                 signature::echo_signature("signature_header(header only)", &signature);
